@@ -27,6 +27,7 @@ class AXILite2Wishbone(LiteXModule):
 
         # Signals.
         _data         = Signal(axi_lite.data_width)
+        _resp         = Signal(2)
         _r_addr       = Signal(axi_lite.address_width)
         _w_addr       = Signal(axi_lite.address_width)
         _last_ar_aw_n = Signal()
@@ -62,12 +63,13 @@ class AXILite2Wishbone(LiteXModule):
             If(wishbone.ack,
                 axi_lite.ar.ready.eq(1),
                 NextValue(_data, wishbone.dat_r),
+                NextValue(_resp, Mux(wishbone.err, RESP_SLVERR, RESP_OKAY)),
                 NextState("SEND-READ-RESPONSE")
             )
         )
         fsm.act("SEND-READ-RESPONSE",
             axi_lite.r.valid.eq(1),
-            axi_lite.r.resp.eq(RESP_OKAY),
+            axi_lite.r.resp.eq(_resp),
             axi_lite.r.data.eq(_data),
             If(axi_lite.r.ready,
                 NextState("IDLE")
@@ -83,12 +85,13 @@ class AXILite2Wishbone(LiteXModule):
             If(wishbone.ack,
                 axi_lite.aw.ready.eq(1),
                 axi_lite.w.ready.eq(1),
+                NextValue(_resp, Mux(wishbone.err, RESP_SLVERR, RESP_OKAY)),
                 NextState("SEND-WRITE-RESPONSE")
             )
         )
         fsm.act("SEND-WRITE-RESPONSE",
             axi_lite.b.valid.eq(1),
-            axi_lite.b.resp.eq(RESP_OKAY),
+            axi_lite.b.resp.eq(_resp),
             If(axi_lite.b.ready,
                 NextState("IDLE")
             )
